@@ -133,7 +133,19 @@ class Ctx:
     def _feasible(self, cons):
         """sat-check of (cone-of-influence slice of the path's assumptions) and cons.  unsat of the slice
         is unsat of the whole; anything else is treated as feasible (explored conservatively)."""
-        ass, dropped = slice_assumptions(self.assumptions(), cons)
+        allass = self.assumptions()
+        # tight slice first: assumptions that only talk about symbols of cons (simple bounds decide most branches)
+        syms = symbols_of(cons)
+        tight = [a for a in allass if symbols_of(a) and symbols_of(a) <= syms]
+        if tight:
+            s0 = z3.Solver()
+            s0.set("timeout", 1000)
+            for a in tight:
+                s0.add(a)
+            s0.add(cons)
+            if s0.check() == z3.unsat:
+                return z3.unsat
+        ass, dropped = slice_assumptions(allass, cons)
         s = z3.Solver()
         s.set("timeout", self.feas_timeout_ms)
         for a in ass:
@@ -587,7 +599,7 @@ def const_fold(e):
     memo = ctx.data.setdefault("const_fold", {})
     key = (e.get_id(), len(ctx.side), len(ctx.extra))
     if key in memo:
-        return memo[key]
+        return memo[key][1]  # (the memo keeps e alive: z3 reuses the ids of collected ASTs)
     out = e
     try:
         from .canon import Canon
@@ -600,7 +612,7 @@ def const_fold(e):
             out = z3.RealVal(str(r.n.const_value() / r.d.const_value()))
     except (ValueError, ZeroDivisionError, RecursionError):
         pass
-    memo[key] = out
+    memo[key] = (e, out)
     return out
 
 
@@ -730,6 +742,17 @@ def valid(e, assumptions=(), timeout_ms=10000):
     s.set("timeout", timeout_ms)
     ne = z3.Not(e)
     if len(assumptions) > 3:
+        syms = symbols_of(ne)
+        tight = [a for a in assumptions if symbols_of(a) and symbols_of(a) <= syms]
+        if tight:
+            s0 = z3.Solver()
+            s0.set("timeout", 1000)
+            for a in tight:
+                s0.add(a)
+            s0.add(ne)
+            if s0.check() == z3.unsat:
+                STATS.feas_queries += 1
+                return True
         assumptions, _ = slice_assumptions(list(assumptions), ne)
     for a in assumptions:
         s.add(a)
